@@ -277,6 +277,51 @@ class Facts:
                 return False
         return None
 
+    def project_out(self, pred, max_terms=3):
+        """forget the atoms satisfying pred, keeping what the facts imply about the others
+        (Fourier-Motzkin elimination on unit coefficients, bounded form size)"""
+        dying = set(a for a in self.iv if pred(a))
+        for k in self.ub:
+            for a, _ in k:
+                if pred(a):
+                    dying.add(a)
+        for x in dying:
+            pos, neg = [], []
+            for k, c in self.ub.items():
+                for a, co in k:
+                    if a == x:
+                        if co == 1:
+                            pos.append((k, c))
+                        elif co == -1:
+                            neg.append((k, c))
+                        break
+            lo, hi = self.iv.get(x, (-INF, INF))
+            if hi != INF:
+                pos.append((((x, 1),), hi))
+            if lo != -INF:
+                neg.append((((x, -1),), -lo))
+            if len(pos) * len(neg) > 64:
+                continue
+            for kp, cp in pos:
+                for kn, cn in neg:
+                    if len(kp) == 1 and len(kn) == 1:
+                        continue
+                    l = Lin(kp, 0).add(Lin(kn, 0))
+                    if not l.terms or len(l.terms) > max_terms:
+                        continue
+                    if any(a in dying for a, _ in l.terms):
+                        continue
+                    if any(co not in (1, -1) for _, co in l.terms):
+                        continue
+                    c = cp + cn
+                    if len(l.terms) == 1:
+                        self.assume_le(l, c)
+                        continue
+                    if self.upper(l, 1) <= c:
+                        continue
+                    self.ub[l.terms] = c
+        self.drop_atoms(lambda a: a in dying)
+
     def drop_atoms(self, pred):
         """forget every fact that mentions an atom satisfying pred"""
         for a in [a for a in self.iv if pred(a)]:
